@@ -19,7 +19,7 @@ RULE = ("forward: random well-formed graphs written by write_arrays (zarr 2/3), 
         "absent / all-false when nothing is missing, empty vs absent props group, optional metadata fields omitted, foreign attributes and "
         "members, creation order shuffled, big-endian ids (zarr 2), zarr 2/3 -- read by geff.read_to_memory; non-trivial = at least one "
         "property; distinct by structural input and variant")
-EXHAUSTIVE_BLOCKS = ["converse: one fixed graph (fixed + masked + var-length property) x all 2*3*2*2*2*2 layout variants"]
+EXHAUSTIVE_BLOCKS = ["converse: one fixed graph (fixed + masked + var-length property) x all 2*3*2*2*2*2*2 layout variants (incl. var-length sections stored in reverse order)"]
 ASSUMPTIONS = ["zarr decodes chunks/compressors correctly (variants are exercised on the implementation side; the abstract dump is codec-free)",
                "an absent missing array and an all-false one denote the same graph (the equivalence used for C02, see DESIGN 7b)",
                "dtype equality is by numpy name, not byte order"]
@@ -32,8 +32,9 @@ def variants_all():
                 for allfalse in (False, True):
                     for emptyprops in (False, True):
                         for minimal_md in (False, True):
-                            yield {"fmt": fmt, "chunk": chunk, "compress": compress, "allfalse": allfalse, "emptyprops": emptyprops,
-                                   "minimal_md": minimal_md, "shuffle": 0, "bigendian": False}
+                            for dlayout in (0, 1):
+                                yield {"fmt": fmt, "chunk": chunk, "compress": compress, "allfalse": allfalse, "emptyprops": emptyprops,
+                                       "minimal_md": minimal_md, "shuffle": 0, "bigendian": False, "dlayout": dlayout}
 
 
 def fixed_graph():
@@ -53,16 +54,24 @@ def generate(rng: random.Random, tier: str):
         g = gg.rand_graph(rng)
         v = {"fmt": rng.choice([2, 3]), "chunk": rng.choice([1, 2, None]), "compress": rng.random() < 0.5, "allfalse": rng.random() < 0.5,
              "emptyprops": rng.random() < 0.5, "minimal_md": rng.random() < 0.5, "shuffle": rng.randint(0, 1000),
-             "bigendian": rng.random() < 0.2}
+             "bigendian": rng.random() < 0.2, "dlayout": rng.choice([0, 1, 2, 2])}
         yield {"kind": "converse", "variant": v, **g}
 
 
 # ---- independent writer (zarr API + numpy only) ----
-def my_serialize(elems):
-    """docs/specification.md: data = the flattened elements one after the other; one row (offset, *shape) per element."""
-    rows, chunks, off = [], [], 0
-    for e in elems:
-        rows.append([off, *e.shape])
+def my_serialize(elems, dlayout=0, seed=0):
+    """docs/specification.md: data = the flattened elements, one row (offset, *shape) per element pointing at its section of data.
+    The specification fixes no order of the sections inside `data`: dlayout 0 = element order, 1 = reversed, 2 = shuffled; an element
+    without entries gets offset 0 whatever the layout (any offset denotes the same empty section)."""
+    order = list(range(len(elems)))
+    if dlayout == 1:
+        order.reverse()
+    elif dlayout == 2:
+        random.Random(seed).shuffle(order)
+    rows, chunks, off = [None] * len(elems), [], 0
+    for i in order:
+        e = elems[i]
+        rows[i] = [off if e.size else 0, *e.shape]
         chunks.append(e.reshape(-1))
         off += int(e.size)
     dt = elems[0].dtype if len(elems) else np.dtype("int64")
@@ -121,12 +130,12 @@ def independent_store(c):
                 if vals.dtype == object:
                     if len(vals) == 0:
                         continue
-                    table, data = my_serialize(list(vals))
+                    table, data = my_serialize(list(vals), v.get("dlayout", 0), v["shuffle"])
                     tasks.append((sub, "values", table))
                     tasks.append((sub, "data", data))
                     dt, vl = dtype_name(data.dtype), True
                 else:
-                    if vals.dtype == np.float16:
+                    if vals.dtype.name == "float16":
                         vals = vals.astype("float32")
                     tasks.append((sub, "values", vals))
                     dt, vl = dtype_name(vals.dtype), False
@@ -162,7 +171,7 @@ def c_sprop(p, it):
         dt = DTYPE_COQ[dtype_name(v[0].dtype)] if len(v) else "DI64"
         vals = f"(SVar {dt} {clist(list(v), lambda x: c_elem(x, it))})"
     else:
-        if v.dtype == np.float16:
+        if v.dtype.name == "float16":
             v = v.astype("float32")
         e = enc_arr(v, it)
         vals = f"(SFixed {DTYPE_COQ[e['dt']]} {clist(e['shape'], cnat)} {clist(e['flat'], cz)})"
@@ -267,5 +276,5 @@ def nontrivial(c, o):
 
 def describe(c, o):
     v = c.get("variant")
-    tag = "fwd:v%d" % c["fmt"] if v is None else f"conv:v{v['fmt']}:ch={v['chunk']}:z={int(v['compress'])}:af={int(v['allfalse'])}:ep={int(v['emptyprops'])}:min={int(v['minimal_md'])}:be={int(v['bigendian'])}"
+    tag = "fwd:v%d" % c["fmt"] if v is None else f"conv:v{v['fmt']}:ch={v['chunk']}:z={int(v['compress'])}:af={int(v['allfalse'])}:ep={int(v['emptyprops'])}:min={int(v['minimal_md'])}:be={int(v['bigendian'])}:dl={v.get('dlayout', 0)}"
     return f"{tag}:N={c['nids']['shape'][0]}:{'ok' if o.get('valid') and o.get('read', [''])[0] == 'ok' else 'err'}"
